@@ -2,7 +2,9 @@
 `to_thread.run_sync`): such a task is registered directly in the caller's scope - it is neither the scope's host nor a
 task-group child with a handle scope of its own, a shape the S machine does not have.  Judged by C03's text directly: a
 task inside an effectively cancelled scope is interrupted within a bounded number of loop cycles, also if it entered
-after the cancellation; a task that is NOT inside a cancelled scope is not treated as cancelled (finding F42, fixed)."""
+after the cancellation; a task that is NOT inside a cancelled scope is not treated as cancelled (finding F42, fixed); an operation on a FREE
+primitive entered by such a task returns or is interrupted, it never spins in checkpoint_if_cancelled() once the scope
+it saw cancelled can no longer reach it (finding F46 scenario A, fixed)."""
 from __future__ import annotations
 
 import sys
@@ -10,7 +12,8 @@ import threading
 
 from core import REPO
 
-SCENARIOS = ["cancelled_while_waiting", "entered_after_cancellation", "abandoned_thread_not_cancelled"]
+SCENARIOS = ["cancelled_while_waiting", "entered_after_cancellation", "abandoned_thread_not_cancelled",
+             "abandoned_thread_cancelled_while_resuming"]
 
 
 def _run(name: str) -> list[str]:
@@ -41,8 +44,59 @@ def _run(name: str) -> list[str]:
         except BaseException as e:  # noqa: BLE001
             result["thread"] = type(e).__name__
 
+    async def main_f46():
+        # F46 scenario A: the coroutine of the worker thread is "about to resume with a value" in the very cycle in which
+        # the host's outer scope is cancelled (the delivery skips it); when it runs it enters Lock.acquire() on a free
+        # lock -> checkpoint_if_cancelled() sees the cancelled outer scope through run_sync's still-entered internal
+        # scope and yields; the host then leaves that internal scope (abandon_on_cancel), after which no delivery can
+        # reach the coroutine any more.
+        lock = anyio.Lock()
+        event = anyio.Event()
+        waiting = anyio.Event()
+
+        async def coro():
+            waiting.set()
+            await event.wait()
+            try:
+                await lock.acquire()
+            except BaseException as exc:
+                result["coro"] = f"interrupted:{type(exc).__name__}"
+                raise
+            result["coro"] = "acquired"
+            lock.release()
+
+        def thread_func():
+            try:
+                from_thread.run(coro)
+            except BaseException:  # noqa: BLE001
+                pass
+
+        async def host():
+            await to_thread.run_sync(thread_func, abandon_on_cancel=True)
+
+        with CancelScope() as outer:
+            async with anyio.create_task_group() as tg:
+                tg.start_soon(host)
+                await waiting.wait()
+                await anyio.sleep(0.05)
+                event.set()
+                outer.cancel()                    # same loop cycle as the event.set()
+        for _ in range(20):
+            if "coro" in result:
+                break
+            await anyio.sleep(0.05)
+        if "coro" not in result:
+            import asyncio
+            n = sum(1 for t in asyncio.all_tasks() if t is not asyncio.current_task() and not t.done())
+            bad.append("Lock.acquire() on a free lock neither returned nor was interrupted within 1 s in a coroutine started "
+                       "with from_thread.run() from an abandoned worker thread whose host scope was cancelled while the "
+                       f"coroutine was about to resume: {n} task(s) spin on sleep(0) in checkpoint_if_cancelled() with "
+                       "nothing left to deliver (the loop never becomes idle)")
+
     async def main():
-        if name in ("cancelled_while_waiting", "entered_after_cancellation"):
+        if name == "abandoned_thread_cancelled_while_resuming":
+            await main_f46()
+        elif name in ("cancelled_while_waiting", "entered_after_cancellation"):
             with CancelScope() as outer:
                 with CancelScope():                       # the immediate scope is not the cancelled one
                     async def killer():
